@@ -143,6 +143,12 @@ func genMetrics(r *Rng, tier string, idx int, args map[string]string) []string {
 	if r.Chance(1, 4) { // two tag sets that render to one key (allowed direction)
 		idents = append(idents, mIdent{"m", [][2]string{{"a", "1:b=2"}}}, mIdent{"m", [][2]string{{"a", "1"}, {"b", "2"}}})
 	}
+	if r.Chance(1, 3) {
+		// a histogram whose name is the name a timer derives for its own histogram (<name>_duration), same tags: they are
+		// different metrics of different kinds and must stay apart whatever the order in which they are first asked for
+		b := Pick(r, idents)
+		idents = append(idents, mIdent{b.name + "_duration", append([][2]string{}, b.tags...)}, b)
+	}
 	if r.Chance(1, 6) { // a name that looks like name+tag
 		idents = append(idents, mIdent{"m:a=1", nil}, mIdent{"m", [][2]string{{"a", "1"}}})
 	}
